@@ -294,9 +294,11 @@ def generate(contract, ov):
             c = pred(kind, payload, st2)
             if c is True or (z3.is_expr(c) and not z3.is_false(z3.simplify(c))):
                 cover_hits[n].append((st2, c))
+    all_props = tuple(dict.fromkeys(tuple(contract.properties) + tuple(getattr(contract, "extra_properties", ()))))
     for (n, pc, goal) in cx.side_obligations:
+        # loop invariants carry every clause of the unit: they belong to all the properties the unit is checked for
         obs.append(Obligation("%s/%s" % (name0, n), pc, goal, kind=n.split("@")[0].split(":")[0],
-                              props=contract.properties, witness=dict(info.get("witness", {})),
+                              props=all_props if n.startswith("inv-") else contract.properties, witness=dict(info.get("witness", {})),
                               concretise=info.get("concretise")))
     for n, hits in cover_hits.items():
         # cover: some path satisfying the predicate is feasible
